@@ -95,6 +95,12 @@ func NewConfig(prop string, tier string, r *core.Rand) Config {
 	case "C07":
 		c.Followers = r.Range(1, 2)
 		c.PRestart = []float64{0.15, 0.3}[r.Intn(2)]
+		if tier == "thorough" && r.Chance(0.25) {
+			// enumeration arm: a follower is restarted after every single block of a short history
+			c.PRestart = 1.0
+			c.Blocks = r.Range(8, 14)
+			c.Followers = 1
+		}
 		c.KindW["stake"], c.KindW["delegate"], c.KindW["unstake"] = 3, 3, 2
 	case "C08":
 		c.Followers = 0
